@@ -1,5 +1,126 @@
-(* placeholder, replaced below *)
-From Coq Require Import List ZArith.
-From V Require Import C18.Model.
-Example C18_placeholder : True. Proof. exact I. Qed.
-Print Assumptions C18_placeholder.
+(* C18 — Firmware update: only a signed complete image boots; writes stay in the spare slot.
+   Property theorems only: each is closed by `exact` of a lemma proved in C18/Proofs.v.
+   The model (C18/Model.v) follows supla_update.c with the repairs docs/fixes/C18_{clamp,offset,disconnect,
+   content_length}.diff (`FIXED`); `C18_old_code_refuted` shows what the code without them does.
+   Every theorem holds for every flash map, running slot, content of the uninitialised header buffer (`heap`),
+   initial flash content, script of flash failures and every signature oracle `verify` (SHA-256/RSA are not
+   modelled; `verify body signature` stands for rsa_sha256_verify over SHA-256(body)). *)
+From Coq Require Import List ZArith Bool.
+Import ListNotations.
+From V Require Import Base.Bytes Gen.UpdateConsts C18.Model C18.Proofs.
+Local Open Scope Z_scope.
+
+Section C18.
+Variables (map_ userbin : Z) (heap : list Z) (verify : list Z -> list Z -> bool).
+Notation run := (run_from FIXED map_ userbin heap verify).
+
+(* Every erase/write of every run lies inside [slot base, slot base + announced length), the announced length
+   (expected_file_size, see C18_content_length_safe) is at most the size limit of the flash map; erases are whole
+   sectors starting inside that range.  Events: any interleaving of Start, segments of any bytes, disconnects. *)
+Theorem C18_writes_contained : forall f fs evs s' outs x,
+  Forall ev_ok evs -> run (init f fs) evs = (s', outs) -> In x outs -> isflash x ->
+  exists b l, slot_base map_ userbin = Some b /\ size_limit map_ = Some l /\ 0 < expected s' <= l /\ opok b (expected s') x.
+Proof. exact (C18_writes_contained_thm map_ userbin heap verify). Qed.
+
+(* FLAG_FINISH is emitted only when the download took exactly the announced number of bytes, these bytes are what
+   the slot holds, they end with the footer, and the oracle accepted (body, the RSA_NUM_BYTES bytes after it), where
+   body is everything before signature+footer; exactly these bytes were fed to the hash / signature buffer. *)
+Theorem C18_finish_implies_authentic : forall f fs evs s' outs,
+  Forall ev_ok evs -> run (init f fs) evs = (s', outs) -> In (OFlag FLAG_FINISH) outs ->
+  let img := accepted s' in let E := expected s' in
+  downloaded s' = E /\ len img = E /\ SIG_OFF < E /\
+  fread (fl s') (base map_ userbin) E = img /\
+  footer_ok (drop (E - FOOTER_SIZE) img) = true /\
+  verify (take (E - SIG_OFF) img) (take RSA_BYTES (drop (E - SIG_OFF) img)) = true /\
+  In (OVerify (take (E - SIG_OFF) img) (take RSA_BYTES (drop (E - SIG_OFF) img)) true) outs.
+Proof. exact (C18_finish_implies_authentic_thm map_ userbin heap verify). Qed.
+
+(* In every other case: while nothing is decided no IDLE/FINISH/restart/reboot is emitted; a decided run ends in one of
+   the `halting_tail`s — FINISH+upgrade reboot after a positive verification, or IDLE+restart (see C18_halting_tails);
+   a disconnect always decides (abandons) an undecided update; a completed download is always decided;
+   an upgrade reboot happens only after FINISH. *)
+Theorem C18_otherwise_idle_and_restart : forall f fs evs s' outs,
+  Forall ev_ok evs -> run (init f fs) evs = (s', outs) ->
+  (halted s' = false -> Forall benign outs) /\
+  (halted s' = true -> exists pre tail, outs = pre ++ tail /\ Forall benign pre /\ halting_tail tail) /\
+  (halted s' = false -> started s' = true ->
+     step FIXED map_ userbin heap verify s' Disc = (halt s', [OFlag FLAG_IDLE; ORestart])) /\
+  (downloading s' = true -> downloaded s' = expected s' -> halted s' = true) /\
+  (In OUpgradeReboot outs -> In (OFlag FLAG_FINISH) outs).
+Proof. exact (C18_otherwise_idle_and_restart_thm map_ userbin heap verify). Qed.
+
+(* A download (hence any flash operation, C18_no_download_no_write) starts only when the text between the first
+   "Content-Length: " and the end of its line consists of decimal digits whose value — as a number, no wrap-around —
+   is positive and within the limit of the flash map. *)
+Theorem C18_content_length_safe : forall f fs evs s' outs,
+  Forall ev_ok evs -> run (init f fs) evs = (s', outs) -> downloading s' = true ->
+  let hdr := rev (rhdr s') in
+  exists pos ds c rest l,
+    find_sub HDR_CLEN (cstr heap hdr) 0 = Some pos /\
+    drop (pos + CLEN_SKIP) hdr = ds ++ c :: rest /\ (c = 13 \/ c = 10) /\ Forall is_digit ds /\
+    expected s' = dec ds 0 /\ size_limit map_ = Some l /\ 0 < dec ds 0 <= l.
+Proof. exact (C18_content_length_safe_thm map_ userbin heap verify). Qed.
+
+Theorem C18_no_download_no_write : forall f fs evs s' outs,
+  Forall ev_ok evs -> run (init f fs) evs = (s', outs) -> downloading s' = false -> forall x, In x outs -> ~ isflash x.
+Proof. exact (C18_no_download_no_write_thm map_ userbin heap verify). Qed.
+End C18.
+Print Assumptions C18_writes_contained.
+Print Assumptions C18_finish_implies_authentic.
+Print Assumptions C18_otherwise_idle_and_restart.
+Print Assumptions C18_content_length_safe.
+Print Assumptions C18_no_download_no_write.
+
+(* what the ends of a decided run look like *)
+Theorem C18_halting_tails : forall t, halting_tail t ->
+  (exists b sg, t = [OVerify b sg true; OFlag FLAG_FINISH; OUpgradeReboot]) \/
+  (~ In (OFlag FLAG_FINISH) t /\ ~ In OUpgradeReboot t /\ In ORestart t /\ forall f, In (OFlag f) t -> f = FLAG_IDLE).
+Proof. exact (halting_tail_cases [] (fun _ _ => true)). Qed.
+Print Assumptions C18_halting_tails.
+
+(* the footer test: magic bytes and the key size field *)
+Theorem C18_footer : forall ft, footer_ok ft = true ->
+  take (len FOOTER_MAGIC) ft = FOOTER_MAGIC /\ V.Base.U32.u32 (nthz ft 6 * 256 - nthz ft 7) = RSA_BYTES.
+Proof. exact footer_ok_magic. Qed.
+Print Assumptions C18_footer.
+
+(* the slot that is written is the one the running firmware does not occupy, for every flash map and userbin value:
+   system_upgrade_userbin_check() = 0 means user1 (at 0x1000) is running, then user2 is written, else user1; the window
+   [base, base + limit) of the lower slot ends below the upper slot *)
+Theorem C18_base_is_inactive_slot : forall m u b,
+  slot_base m u = Some b ->
+  2 <= m <= 6 /\ b = (if u =? 0 then sdk_user2 m else sdk_user1) /\
+  exists l, size_limit m = Some l /\ sdk_user1 + l <= sdk_user2 m /\ sdk_user1 mod SEC_SIZE = 0 /\ sdk_user2 m mod SEC_SIZE = 0.
+Proof. exact C18_base_is_inactive_slot_thm. Qed.
+Print Assumptions C18_base_is_inactive_slot.
+
+(* the code before the repairs (each witness is replayed on the real code: corpus/C18/long_body, header_split_arena,
+   short_body_disconnect, clen_wrap) *)
+Theorem C18_old_code_refuted :
+  expected (fst (w_run OLD_CLAMP w_long)) = 5000 /\ has (erase_at (1052672 + 12288)) (w_run OLD_CLAMP w_long) = true /\
+  has (write_from (1052672 + 8192)) (w_run OLD_CLAMP w_long) = true /\ has (erase_at (1052672 + 12288)) (w_run OLD_ALL w_long) = true /\
+  has (write_from (1052672 + 8192)) (w_run FIXED w_long) = false /\ has is_restart (w_run FIXED w_long) = true /\
+  expected (fst (w_run OLD_ALL w_split)) = 5000 /\ has (erase_at (1052672 + 61440)) (w_run OLD_ALL w_split) = true /\
+  has is_finish (w_run OLD_OFFSET w_split) = false /\
+  has (erase_at (1052672 + 8192)) (w_run FIXED w_split) = false /\ has is_finish (w_run FIXED w_split) = true /\
+  has is_restart (w_run OLD_DISC w_short) = false /\ halted (fst (w_run OLD_DISC w_short)) = false /\
+  has is_restart (w_run FIXED w_short) = true /\
+  expected (fst (w_run OLD_CLEN w_wrap)) = 5000 /\ has is_finish (w_run OLD_CLEN w_wrap) = true /\
+  has is_finish (w_run FIXED w_wrap) = false /\ has is_restart (w_run FIXED w_wrap) = true.
+Proof. exact C18_old_code_refuted_thm. Qed.
+Print Assumptions C18_old_code_refuted.
+
+(* the hypotheses are satisfiable and FINISH is reachable: a valid image arriving in three segments, the header cut
+   inside "Content-Length" *)
+Example C18_nonvacuous :
+  snd (w_run FIXED w_valid) =
+    [OBase 1052672; OFlag FLAG_START; OErase 1052672; OWrite 1052672 (firstn 4096 w_image);
+     OErase 1056768; OWrite 1056768 (skipn 4096 w_image);
+     OVerify (firstn 4472 w_image) (firstn 512 (skipn 4472 w_image)) true; OFlag FLAG_FINISH; OUpgradeReboot] /\
+  forallb (fun e => match e with Seg b => forallb (fun x => (0 <=? x) && (x <? 256)) b | _ => true end) w_valid = true /\
+  snd (run_from FIXED 5 0 [] (fun _ _ => false) (init flash0 []) w_valid) =
+    [OBase 1052672; OFlag FLAG_START; OErase 1052672; OWrite 1052672 (firstn 4096 w_image);
+     OErase 1056768; OWrite 1056768 (skipn 4096 w_image);
+     OVerify (firstn 4472 w_image) (firstn 512 (skipn 4472 w_image)) false; OFlag FLAG_IDLE; ORestart].
+Proof. exact C18_nonvacuous_thm. Qed.
+Print Assumptions C18_nonvacuous.
